@@ -144,6 +144,7 @@ class ExprSim(core.Engine):
             return [Violation('C13', 'parsed_value', step, f'{what}: value of {text!r} is {got}, arithmetic gives {exp}')]
         return []
 
+    @core.stuck_guard
     def _execute(self, trace: dict, prop: str, rng: Optional[random.Random]) -> core.RunResult:
         knobs = trace['knobs']
         storesim.set_load_factor(knobs['load_factor'])
